@@ -270,6 +270,7 @@ pub fn family_nth(fam: &str, k: usize, a: usize, i: usize) -> (String, Program) 
         "stitch" => inkgen::stitch_nth(k, a, i),
         "shape" | "shapeflat" => inkgen::shape_nth(k, i),
         "segtight" => inkgen::seg_nth(k, a, i),
+        "quirk" => inkgen::quirk_nth(i),
         "shaperoot" => inkgen::shape_root_nth(k, i),
         _ => inkgen::seg_nth(k, a, i),
     }
@@ -286,10 +287,10 @@ pub fn run(tier: Tier) -> i32 {
     }
     let a = inkgen::ITEM_NAMES.len();
     let (fams, depth, secs): (Vec<(&str, usize)>, usize, u64) = match tier {
-        Tier::Quick => (vec![("seg", 1), ("seg", 2), ("loop", 1), ("loop", 2), ("stitch", 1), ("shape", 1), ("shape", 2), ("shapeflat", 1), ("shaperoot", 1), ("segtight", 1)], 4, 55),
-        Tier::Thorough => (vec![("seg", 1), ("seg", 2), ("seg", 3), ("loop", 1), ("loop", 2), ("stitch", 1), ("stitch", 2), ("shape", 1), ("shape", 2), ("shapeflat", 1), ("shapeflat", 2), ("shaperoot", 1), ("shaperoot", 2), ("segtight", 1), ("segtight", 2)], 5, 2400),
+        Tier::Quick => (vec![("seg", 1), ("seg", 2), ("loop", 1), ("loop", 2), ("stitch", 1), ("shape", 1), ("shape", 2), ("shapeflat", 1), ("shaperoot", 1), ("segtight", 1), ("quirk", 1)], 4, 55),
+        Tier::Thorough => (vec![("seg", 1), ("seg", 2), ("seg", 3), ("loop", 1), ("loop", 2), ("stitch", 1), ("stitch", 2), ("shape", 1), ("shape", 2), ("shapeflat", 1), ("shapeflat", 2), ("shaperoot", 1), ("shaperoot", 2), ("segtight", 1), ("segtight", 2), ("quirk", 1)], 5, 2400),
     };
-    let counts: Vec<usize> = fams.iter().map(|(f, k)| if f.starts_with("shape") { inkgen::shape_count(*k) } else { inkgen::seg_count(*k, a) }).collect();
+    let counts: Vec<usize> = fams.iter().map(|(f, k)| if *f == "quirk" { inkgen::quirk_count() } else if f.starts_with("shape") { inkgen::shape_count(*k) } else { inkgen::seg_count(*k, a) }).collect();
     let n: usize = counts.iter().sum();
     let locate = |mut i: usize| -> (&str, usize, usize) {
         for (fi, c) in counts.iter().enumerate() {
